@@ -19,7 +19,29 @@ def sh(cmd, **kw):
     return subprocess.run(cmd, shell=isinstance(cmd, str), stdout=subprocess.PIPE, stderr=subprocess.STDOUT, text=True, **kw)
 
 
+def private_copy():
+    """Run in a private copy of /verif (the checks regenerate coq/Gen from the tree under test, which
+    would disturb anything else that is compiling in /verif at the same time); results are copied back."""
+    priv = "/tmp/verif-seeded-%d" % os.getpid()
+    sh(["rsync", "-a", "--delete", "--exclude", ".git", HERE + "/", priv + "/"])
+    try:
+        r = subprocess.run([sys.executable, os.path.join(priv, "tools", "seeded.py")] + sys.argv[1:],
+                           env=dict(os.environ, VERIF_SEEDED_INPLACE="1"))
+        for name in os.listdir(os.path.join(priv, "seeded")):
+            src = os.path.join(priv, "seeded", name, "result.json")
+            dst = os.path.join(HERE, "seeded", name)
+            if os.path.exists(src) and os.path.isdir(dst) and (
+                    not os.path.exists(os.path.join(dst, "result.json")) or
+                    os.path.getmtime(src) > os.path.getmtime(os.path.join(dst, "result.json")) + 1):
+                sh(["cp", src, os.path.join(dst, "result.json")])
+        return r.returncode
+    finally:
+        sh(["rm", "-rf", priv])
+
+
 def main():
+    if not os.environ.get("VERIF_SEEDED_INPLACE") and not HERE.startswith("/tmp/"):
+        sys.exit(private_copy())
     names = sys.argv[1:] or sorted(d for d in os.listdir(os.path.join(HERE, "seeded"))
                                    if os.path.exists(os.path.join(HERE, "seeded", d, "patch.diff")))
     sh(["git", "-C", "/repo", "worktree", "add", "-q", WT, "HEAD"])
